@@ -99,3 +99,9 @@ fn init_logging() {
         }
     }
 }
+
+/// Verification hooks (only with `--cfg sccache_verif`): re-exports of items in
+/// private modules so that an external harness can drive the real code.
+#[cfg(sccache_verif)]
+#[doc(hidden)]
+pub mod verif_hooks;
